@@ -2,6 +2,7 @@ package bloomsearch
 
 import (
 	"math"
+	"reflect"
 )
 
 // MinMaxIndex records the observed numeric range of a field. Values outside
@@ -32,6 +33,9 @@ func ConvertToMinMaxInt64(value any) (minVal int64, maxVal int64, ok bool) {
 	default:
 		intVal, isInt := toInt64(value)
 		if !isInt {
+			if f, isFloat := namedFloat(value); isFloat {
+				return floatToMinMaxInt64(f)
+			}
 			return 0, 0, false
 		}
 		return intVal, intVal, true
@@ -56,7 +60,13 @@ func ConvertToInt64(value any) (int64, bool) {
 	case float64:
 		return floatToInt64(v)
 	default:
-		return toInt64(value)
+		if intVal, isInt := toInt64(value); isInt {
+			return intVal, true
+		}
+		if f, isFloat := namedFloat(value); isFloat {
+			return floatToInt64(f)
+		}
+		return 0, false
 	}
 }
 
@@ -105,8 +115,34 @@ func toInt64(value any) (int64, bool) {
 	case uint64:
 		return clampUint64ToInt64(v), true
 	default:
+		// Named integer types (time.Duration, type ID uint64, ...) do not match
+		// the predeclared types above; resolve them by kind.
+		if value == nil {
+			return 0, false
+		}
+		rv := reflect.ValueOf(value)
+		switch rv.Kind() {
+		case reflect.Int, reflect.Int8, reflect.Int16, reflect.Int32, reflect.Int64:
+			return rv.Int(), true
+		case reflect.Uint, reflect.Uint8, reflect.Uint16, reflect.Uint32, reflect.Uint64, reflect.Uintptr:
+			return clampUint64ToInt64(rv.Uint()), true
+		}
 		return 0, false
 	}
+}
+
+// namedFloat resolves values of named floating-point types (type Celsius
+// float64), which the float32/float64 type-switch cases do not match.
+func namedFloat(value any) (float64, bool) {
+	if value == nil {
+		return 0, false
+	}
+	rv := reflect.ValueOf(value)
+	switch rv.Kind() {
+	case reflect.Float32, reflect.Float64:
+		return rv.Float(), true
+	}
+	return 0, false
 }
 
 func clampUint64ToInt64(v uint64) int64 {
